@@ -4,11 +4,11 @@ use crate::support::*;
 use educe::Educe;
 use core::cmp::Ordering;
 #[derive(Educe)]
-#[educe(Ord, PartialOrd, PartialEq, Eq)]
-pub struct T(A<0>, A<1>, #[educe(Ord(rank = 0x7))] A<2>, #[educe(Ord(rank = 0x0))] A<3>);
+#[educe(PartialEq, PartialOrd, Eq)]
+pub struct T(#[educe(PartialOrd(method = "m_pcmp", rank = "+0"))] A<0>);
 
-pub fn values() -> Vec<T> { vec![T(A(1), A(0), A(0), A(1)), T(A(0), A(0), A(0), A(1)), T(A(7), A(1), A(0), A(0)), T(A(7), A(7), A(1), A(7)), T(A(7), A(7), A(7), A(0)), T(A(7), A(1), A(1), A(0)), T(A(0), A(0), A(0), A(0)), T(A(0), A(0), A(7), A(7)), T(A(1), A(1), A(7), A(1)), T(A(1), A(7), A(1), A(7)), T(A(1), A(1), A(1), A(7)), T(A(0), A(1), A(7), A(0)), T(A(1), A(1), A(1), A(1)), T(A(1), A(1), A(0), A(7)), T(A(7), A(0), A(1), A(0)), T(A(0), A(7), A(7), A(7)), T(A(7), A(0), A(0), A(7)), T(A(7), A(1), A(7), A(1)), T(A(0), A(7), A(1), A(7)), T(A(1), A(0), A(7), A(0)), T(A(7), A(1), A(7), A(7)), T(A(0), A(1), A(1), A(1)), T(A(1), A(7), A(0), A(7)), T(A(0), A(0), A(0), A(7)), T(A(0), A(0), A(1), A(0)), T(A(0), A(1), A(0), A(0)), T(A(7), A(7), A(7), A(1)), T(A(7), A(0), A(0), A(0)), T(A(0), A(7), A(1), A(0)), T(A(7), A(7), A(1), A(0)), T(A(1), A(0), A(7), A(7)), T(A(0), A(7), A(1), A(1)), T(A(7), A(7), A(0), A(0)), T(A(7), A(1), A(7), A(0)), T(A(1), A(7), A(7), A(1)), T(A(7), A(1), A(1), A(1))] }
-pub fn show(x: &T) -> String { #[allow(unused_variables)] match x { T(p0, p1, p2, p3) => format!("T({},{},{},{})", sv(p0), sv(p1), sv(p2), sv(p3)) } }
-pub fn o_disc(x: &T) -> i128 { match x { T(_, _, _, _) => 0 } }
-pub fn o_cmp(a: &T, b: &T) -> Ordering { match (a, b) { (T(a0, a1, a2, a3), T(b0, b1, b2, b3)) => { let c = ::core::cmp::Ord::cmp(a0, b0); if c != Ordering::Equal { return c; } let c = ::core::cmp::Ord::cmp(a1, b1); if c != Ordering::Equal { return c; } let c = ::core::cmp::Ord::cmp(a3, b3); if c != Ordering::Equal { return c; } let c = ::core::cmp::Ord::cmp(a2, b2); if c != Ordering::Equal { return c; } Ordering::Equal } } }
-pub fn run(out: &mut Out) { let vs = values(); for (i, a) in vs.iter().enumerate() { for (j, b) in vs.iter().enumerate() { let e = o_cmp(a, b); let g = ::core::cmp::Ord::cmp(a, b); out.check(g == e, "ord_28", "cmp", || format!("cmp({}, {}) = {:?} expected {:?}", show(a), show(b), g, e)); let g2 = ::core::cmp::PartialOrd::partial_cmp(a, b); out.check(g2 == Some(e), "ord_28", "partial_is_some_cmp", || format!("partial_cmp({}, {}) = {:?} expected Some({:?})", show(a), show(b), g2, e)); } } }
+pub fn values() -> Vec<T> { vec![T(A(0)), T(A(1)), T(A(7))] }
+pub fn show(x: &T) -> String { #[allow(unused_variables)] match x { T(p0) => format!("T({})", sv(p0)) } }
+pub fn o_disc(x: &T) -> i128 { match x { T(_) => 0 } }
+pub fn o_pcmp(a: &T, b: &T) -> Option<Ordering> { match (a, b) { (T(a0), T(b0)) => { match m_pcmp(a0, b0) { Some(Ordering::Equal) => (), x => return x } Some(Ordering::Equal) } } }
+pub fn run(out: &mut Out) { let vs = values(); for (i, a) in vs.iter().enumerate() { for (j, b) in vs.iter().enumerate() { let e = o_pcmp(a, b); let g = ::core::cmp::PartialOrd::partial_cmp(a, b); out.check(g == e, "ord_28", "partial_cmp", || format!("partial_cmp({}, {}) = {:?} expected {:?}", show(a), show(b), g, e)); } } }
